@@ -286,13 +286,16 @@ func plan(e *common.Env) []planItem {
 		}
 	}
 	nEnum := len(nestEnums)
-	for i := 0; i < nEnum; i++ {
-		p = append(p, planItem{Kind: "N", Arg: nIdx, Mode: 1, Seed: uint64(i)})
-	}
+	enumNext := 0
 	nMut := e.Pick(2600, 45000)
 	nFam := e.Pick(600, 8000)
 	// families and mutants interleaved, so that a time-limited run sees all
-	for i := 0; i < nMut || i < nFam; i++ {
+	for i := 0; i < nMut || i < nFam || enumNext < nEnum; i++ {
+		// the enumerated token sequences, spread over the run
+		for k := 0; k < 12 && enumNext < nEnum; k++ {
+			p = append(p, planItem{Kind: "N", Arg: nIdx, Mode: 1, Seed: uint64(enumNext)})
+			enumNext++
+		}
 		if i < nFam {
 			for f := range families {
 				p = append(p, planItem{Kind: families[f].name, Arg: f, Seed: e.Rand.Uint64()})
@@ -424,8 +427,15 @@ func runWorker(e *common.Env, k, w, from int, outPath string) {
 		if idx%w != k {
 			continue
 		}
-		if time.Now().After(deadline) && p[idx].Kind != "corpus" && p[idx].Kind != "f7" && p[idx].Kind != "base" {
-			break
+		// only the random mutants are subject to the time budget: the corpus and
+		// the model-compared families always run completely, whatever the load
+		if p[idx].Kind == "mutant" && time.Now().After(deadline) {
+			// leave a trace: the supervisor blames the case after the last line
+			// when a worker dies
+			sk := &workerLine{}
+			sk.Idx, sk.Kind, sk.Status = idx, "mutant", "skipped"
+			emit(sk)
+			continue
 		}
 		it := p[idx]
 		l := &workerLine{}
@@ -683,6 +693,9 @@ func main() {
 	unconfirmed := 0
 	for _, l := range all {
 		statusCount[l.Status]++
+		if l.Status == "skipped" {
+			continue
+		}
 		isWalk := l.Kind == "corpus" || l.Kind == "base" || l.Kind == "mutant" || l.Kind == "f7"
 		if isWalk {
 			st := l.Stats
